@@ -688,6 +688,7 @@ def coq_case(proj, obs, ast):
 # ------------------------------------------------------------------ the check
 def run(ctx):
     ctx.prove(["Props/C19.vo", "Run/eval_C19.vo"], extra_props=["Compose_C19_C06"])   # + composition C19 => C06 => C04 (exposed names are the valid declarations, and resolve)
+    import extractlib; extractlib.fn_tie(ctx, "C19")   # parse.getImportPathFromCommentGroup / getImportPath re-translated from the tree and proved equal to ImportTag's tag parser (DESIGN 3.5)
     import extractlib; extractlib.tables_tie(ctx, ['importTag'])   # literal data of the source re-proved equal to the models' (DESIGN 3.5)
     ctx.trusted_base += [
         "command-line histories: mage's default mode rebuilds on every invocation (GOCACHE in use), hash mode reuses the binary named after the magefiles' hash - the C08 model",
